@@ -242,7 +242,18 @@ pub fn gen_rep(rng: &mut Rng) -> G {
         _ => G::IntersperseDefault(lo, hi, item, 4),
     };
     // often followed by something, to observe where the returned lexer is
-    match rng.below(3) {
+    match rng.below(4) {
+        // the same repetition parser object applied to several groups, some of them too short for
+        // its lower bound (it then fails after having accepted items, and an alternative takes over)
+        3 => {
+            let (lo, hi) = (2 + rng.below(2), if rng.chance(1, 2) { None } else { Some(4) });
+            let grp = match rng.below(2) {
+                0 => G::Intersperse(rng.below(2) as u8, lo, hi, Box::new(G::One(0)), Box::new(G::One(4))),
+                _ => G::Repeat(rng.below(2) as u8, lo, hi, Box::new(G::Any(vec![0, 1]))),
+            };
+            let alt = G::Either(Box::new(grp), Box::new(G::Discard(Box::new(G::Repeat(0, 0, Some(2), Box::new(G::Any(vec![0, 1, 4])))))));
+            G::Repeat(0, 0, None, Box::new(G::Both(Box::new(alt), Box::new(G::One(5)))))
+        }
         0 => core,
         1 => G::Both(Box::new(core), Box::new(gen_leaf(rng))),
         _ => G::Both(Box::new(G::Maybe(Box::new(G::One(0)))), Box::new(core)),
@@ -788,7 +799,7 @@ pub fn family(out: &mut Out, family: &str, tier: &Tier, rng: &mut Rng) {
             _ => return,
         };
         let mut c = c;
-        if matches!(family, "bracket" | "list" | "errors" | "term" | "nopanic") && rng.chance(1, 3) {
+        if matches!(family, "bracket" | "list" | "errors" | "term" | "nopanic" | "peg" | "rep" | "capture") && rng.chance(1, 3) {
             // one case in three applies the same compiled parser object two or three times
             c.invocations = 2 + rng.below(2);
         }
